@@ -208,6 +208,18 @@ func runC06(c *ShardCtx) {
 			lab := peg.ReplaceNth(body, pos, func(x *peg.Expr) *peg.Expr { return peg.Label("x", x) })
 			rbodies = append(rbodies, peg.Action(0, lab), peg.Action(0, peg.Seq(lab.Clone(), peg.AndCode(0))), peg.Seq(lab.Clone(), peg.NotCode(0)))
 		}
+		// inline (parenthesised) actions and predicates behind a variable-width prefix: the
+		// same block is reached at the same offset from two different starts of the rule
+		n0 := len(rbodies)
+		if maxInline := map[bool]int{false: 3, true: 4}[c.Thorough()]; len(peg.Nodes(body)) > maxInline {
+			n0 = 0
+		}
+		for _, rb := range rbodies[:n0] {
+			rbodies = append(rbodies, peg.Seq(peg.Star(peg.Lit("a")), rb.Clone()))
+			if c.Thorough() {
+				rbodies = append(rbodies, peg.Action(0, peg.Seq(peg.Opt(peg.Cls(false, false, "a", "b")), peg.Label("p", rb.Clone()))))
+			}
+		}
 		for _, rb := range rbodies {
 			for _, tp := range templates {
 				if c.Expired("F3") {
